@@ -567,10 +567,11 @@ def rf61(run):
             for k in (0, 1):
                 table.setdefault((k, types[k]), {}).setdefault(parts[k], []).append((nres, types))
     # an integer immediate as argument: C passes an unsuffixed constant in a variadic position as a 32-bit int
-    for mode_nm, want in (('MIR_OP_INT', 'int64_t'), ('MIR_OP_UINT', 'uint64_t')):
+    for mode_nm, want in (('MIR_OP_INT', 'int64_t'), ('MIR_OP_UINT', 'uint64_t'), ('MIR_OP_MEM', 'int64_t')):
         env = {'insn->code': codes['MIR_CALL'], 'code': codes['MIR_CALL'], 'insn->nops': 4, 'nops': 4,
                'ops[0].mode': modes['MIR_OP_REF'], 'ops[0].u.ref': 1, 'proto': 2, 'ops[1].mode': modes['MIR_OP_REG'],
-               'ops[2].mode': modes['MIR_OP_REG'], 'ops[3].mode': modes[mode_nm], 'ops[0].u.ref->u.proto': 2}
+               'ops[2].mode': modes['MIR_OP_REG'], 'ops[3].mode': modes[mode_nm], 'ops[0].u.ref->u.proto': 2,
+               'ops[3].u.mem.type': ty['MIR_T_I32']}
         heap = {1: {'->item_type': dict(tu.enum('MIR_item_type_t'))['MIR_proto_item'], '->u.proto': 2},
                 2: {'->nres': 0, '->res_types[0]': ty['MIR_T_I64'], '->args': 3, '->vararg_p': 1}}
         ex = PE.PrintExec(tu, heap, {'VARR_MIR_var_tget': lambda a, e, x: {'type': ty['MIR_T_P'], 'size': 0, 'name': 1},
@@ -588,7 +589,7 @@ def rf61(run):
         ok = want in last
         run.ob(rule, ('immediate', mode_nm), ok, {'argument mode': mode_nm, 'text': txt})
         if not ok:
-            run.violation(rule, f, 'integer immediate argument (%s)' % mode_nm, 'an integer immediate passed in the variadic part of a call is '
+            run.violation(rule, f, 'integer immediate argument (%s)' % mode_nm, ('an i32 memory operand' if mode_nm == 'MIR_OP_MEM' else 'an integer immediate') + ' passed in the variadic part of a call is '
                           'printed as `%s` without a (%s) cast: C passes it as a 32-bit int, MIR as a 64-bit value (printf ("%%ld", -1) '
                           'prints 4294967295 in the translation)' % (last.strip().rstrip(');'), want), line=stmts[0]['l'])
     for (k, t), forms in sorted(table.items()):
@@ -657,42 +658,54 @@ def rf92(run):
 # ---------------------------------------------------------------------------------------------
 
 def rf93(run):
+    from lib import printexec as PE
     rule = 'RF93'
-    run.rule(rule, '_MIR_output_data_item_els (C mode, used by mir2c): the string form of u8 data is printed inside `/* … */` only under a test '
-                   'that the bytes do not contain `*/`; MIR_output_str leaves `*` and `/` unescaped, so such a string would end the comment '
-                   'and the rest of it would be compiled')
+    run.rule(rule, '_MIR_output_data_item_els in C mode (used by mir2c), executed abstractly over u8 data models: MIR_output_str leaves `*` and '
+                   '`/` unescaped and prints all nel bytes, so whenever the bytes contain `*/` — also behind an embedded zero byte — no '
+                   '`/* … */` comment with the string form is opened; otherwise the comment ends early and the rest is compiled.  The '
+                   'test may be written with strstr/memmem (modelled with their libc meaning: strstr stops at the first zero byte) or as a loop')
     tu = run.tu('mir')
     f = tu.func('_MIR_output_data_item_els')
     run.functions_analysed.add(('mir', f.name))
-    opens = []
-    for x in f.walk():
-        if x['k'] == 'CallExpr' and x.get('callee') == 'fprintf' and any(y['k'] == 'StringLiteral' and '/*' in y['s'] for y in F.walk(x)):
-            opens.append(x)
+    ty = dict(tu.enum('MIR_type_t'))
+    models = [('"a*/b"', [97, 42, 47, 98, 0], True), ('"*/"', [42, 47, 0], True), ('"a\\0*/"', [97, 0, 42, 47, 0], True),
+              ('"ab"', [97, 98, 0], False), ('"/*"', [47, 42, 0], False)]
     n = 0
-    if not opens:
-        run.ob(rule, ('no comment',), True, {'C comment printed': False})
-        return 1
-    for x in opens:
-        guard = None
-        cur = x['i']
-        while cur is not None:
-            p_ = f.parent.get(cur)
-            if p_ is None:
-                break
-            pn = f.nodes[p_]
-            if pn['k'] == 'IfStmt' and any(y is x for y in F.walk(pn['c'][1])):
-                guard = pn
-                break
-            cur = p_
-        txt = F.src(guard['c'][0]) if guard is not None else ''
-        lits = [y['s'] for y in F.walk(guard['c'][0]) if y['k'] == 'StringLiteral'] if guard is not None else []
-        ok = '*/' in lits and ('strstr' in txt or 'memmem' in txt)
+    for label, bs, has in models:
+        heap = {1: {'->u.data': 2, '->item_type': dict(tu.enum('MIR_item_type_t'))['MIR_data_item']},
+                2: {'->nel': len(bs), '->el_type': ty['MIR_T_U8']}}
+        for k, b in enumerate(bs):
+            heap[2]['->u.els[%d]' % k] = b
+
+        def c_strstr(a, e, x, bs=bs):
+            lit = F.strip(a[1])
+            needle = lit['s'] if lit['k'] == 'StringLiteral' else None
+            if needle is None:
+                raise F.AnalysisBroken('strstr with a non-literal needle')
+            hay = bytes(bs[:bs.index(0)]) if 0 in bs else bytes(bs)
+            return 1 if needle.encode() in hay else 0
+
+        def c_memmem(a, e, x, bs=bs):
+            lit = F.strip(a[2])
+            needle = lit['s'] if lit['k'] == 'StringLiteral' else None
+            if needle is None:
+                raise F.AnalysisBroken('memmem with a non-literal needle')
+            return 1 if needle.encode() in bytes(bs) else 0
+        ex = PE.PrintExec(tu, heap, {'strstr': c_strstr, 'memmem': c_memmem}, {'MIR_output_str': lambda a, e, x: 'S'}, max_iter=16)
+        env = {'item': 1, 'c_p': 1}
+        try:
+            ex.run(f.body, env)
+        except F.AnalysisBroken as exn:
+            raise F.AnalysisBroken('_MIR_output_data_item_els (u8 %s): %s' % (label, exn))
+        txt = ex.text()
+        opened = '/*' in txt
+        ok = not (has and opened)
         n += 1
-        run.ob(rule, (x['l'],), ok, {'site': '%s:%d' % (f.relfile(), x['l']), 'guard': txt[:140]})
+        run.ob(rule, (label,), ok, {'bytes': label, 'contain */': has, 'comment opened': opened, 'printed': txt[:60]})
         if not ok:
-            run.violation(rule, f, 'string bytes inside a C comment', 'the string form of the data is printed between `/*` and `*/` without a test '
-                          'that it does not contain `*/`: a data string such as "a*/b" closes the comment and the C compiler rejects (or worse, '
-                          'compiles) the remainder', line=x['l'])
+            run.violation(rule, f, 'string bytes inside a C comment', 'for u8 data %s the string form is printed inside `/* … */` although the bytes '
+                          'contain `*/`%s: the comment ends early and the C compiler rejects (or worse, compiles) the remainder' %
+                          (label, ' (behind a zero byte, where a strstr test does not look)' if 0 in bs[:-1] else ''), line=f.line)
     return n
 
 
